@@ -315,19 +315,13 @@ func runC28(c *Ctx) {
 				h := loopHeaderOf(news[0].Instr.Block())
 				// index = len(proof')-1-i  or lvl-1-i
 				idx := linOf(elem.Index)
-				var ctr string
-				if h != nil {
-					for _, in := range h.Instrs {
-						if phi, ok := in.(*ssa.Phi); ok {
-							if _, ok := counterIncrements(phi, func(v ssa.Value) bool { k, ok := constInt(v); return ok && k == -1 }); ok {
-								ctr = render(phi)
-							}
-						}
-					}
+				okIdx := false
+				if li, _, isLoop := indexLoop(h); isLoop {
+					iLin := linOf(li)
+					want1 := Lin{T: map[string]int64{"len(" + render(proofV) + ")": 1}, K: -1}.add(iLin, -1)
+					want2 := lvl.add(Lin{T: map[string]int64{}, K: -1}, 1).add(iLin, -1)
+					okIdx = linIsZero(idx.add(want1, -1)) || linIsZero(idx.add(want2, -1))
 				}
-				want1 := Lin{T: map[string]int64{"len(" + render(proofV) + ")": 1, ctr: -1}, K: -2} // i = phi+1
-				want2 := lvl.add(Lin{T: map[string]int64{ctr: -1}, K: -2}, 1)
-				okIdx := ctr != "" && (linIsZero(idx.add(want1, -1)) || linIsZero(idx.add(want2, -1)))
 				c.check(okIdx, "C28.rewind-shape", "root i is entry len−1−i of the adjusted proof (lowest level first)", elem.Pos(), idx.String(), "root i is taken from index "+idx.String())
 				// on every path the adjusted proof has exactly lvl entries and only its front was changed
 				phi, _ := proofV.(*ssa.Phi)
@@ -535,7 +529,7 @@ func runC28(c *Ctx) {
 		puts := c.calls(va, byCallee("nodeDB).Put"))
 		news := c.calls(va, byCallee("hexary.newNodeFromBytes"))
 		var eqNode, eqLeaf []*ssa.Call
-		for _, cs := range c.calls(va, byCallee("bytes.Equal")) {
+		for _, cs := range c.calls(va, byCallee("bytes.Equal", "bytes.Compare")) {
 			cl := cs.Instr.(*ssa.Call)
 			_, a := callArgs(cl.Common())
 			if render(a[1]) == "$1" || render(a[0]) == "$1" {
@@ -622,9 +616,13 @@ func runC28Extra(c *Ctx) {
 					continue
 				}
 				switch bo.Op {
-				case token.GTR:
+				case token.GTR: // continue while n > k
 					bound = k
 				case token.GEQ:
+					bound = k - 1
+				case token.LEQ: // leave when n <= k
+					bound = k
+				case token.LSS:
 					bound = k - 1
 				case token.AND:
 					mask = k
